@@ -61,3 +61,43 @@ sp_harness! {
         }
     }
 }
+
+// Minimal variant: the global split is the last row, so expanding it needs no
+// memmove of later rows. First run: hash order chosen by the solver; second
+// run: insertion order. An order-independent implementation gives the same
+// rows in both; one that follows the set's iteration order does not.
+fn history3(day_split: i64) -> Vec<Tx> {
+    vec![
+        simple_buy(aff(0), date(10), 0),
+        simple_buy(aff(1), date(11), 1),
+        tx(Affiliate::global(), date(day_split), 2, split(pos(2, 0), pos(1, 0), false)),
+    ]
+}
+
+sp_harness! {
+    #[kani::unwind(12)]
+    fn c09_global_split_order_min() {
+        let day = any_in(20, 40);
+        let mut k = 0;
+        while k < ks::repeats() {
+            let mut a = history3(day);
+            let mut b = history3(day);
+            #[cfg(kani)]
+            crate::kani_model::collections::set_order_nondet(true);
+            let ra = replace_global_security_splits(&mut a);
+            #[cfg(kani)]
+            crate::kani_model::collections::set_order_nondet(false);
+            let rb = replace_global_security_splits(&mut b);
+            vcover!("expanded twice");
+            assert!(ra.is_ok() && rb.is_ok());
+            assert!(a.len() == 4 && b.len() == 4);
+            assert!(a[2].action() == TxAction::Split && a[3].action() == TxAction::Split);
+            assert!(a[2].affiliate != a[3].affiliate);
+            assert!(!a[2].affiliate.is_global() && !a[3].affiliate.is_global());
+            assert!(a[2].affiliate == b[2].affiliate, "split rows ordered by hash iteration");
+            assert!(a[3].affiliate == b[3].affiliate);
+            core::mem::forget(a); core::mem::forget(b); core::mem::forget(ra); core::mem::forget(rb);
+            k += 1;
+        }
+    }
+}
